@@ -19,7 +19,9 @@ EXPLANATION = (
     "Decides: R-remove-complete (effect analysis: for every concrete class, the _remove_feature chain "
     "resolved through its MRO removes / marks the feature in every per-feature attribute that the "
     "class or an ancestor initialises -- the frozen table plus every attribute whose initial value is "
-    "derived from a feature list); R-no-iter-mutation (no loop iterates a self list that its body "
+    "derived from a feature list; removals requested outside _remove_feature dispatch to the most "
+    "derived override); R-pool-args (a computed multiprocessing chunk size is clamped to >= 1); "
+    "R-no-iter-mutation (no loop iterates a self list that its body "
     "mutates); R-boundaries-sorted-unique-inf (unique leaders); R-definite-assignment "
     "(predicate-sensitive, same-test correlation: no read of a possibly unbound local in the "
     "discretizer / carver modules, i.e. no UnboundLocalError path); R-nullable-dev (every value derived "
@@ -30,7 +32,7 @@ EXPLANATION = (
     "ChainedDiscretizer, which C18 covers)."
 )
 NOT_DECIDED = "absence of every other internal error on all inputs; that the fitted partition covers every training value"
-FLOORS = {"R-remove-complete": 12, "R-no-iter-mutation": 3, "R-boundaries-sorted-unique-inf": 4, "R-definite-assignment": 100, "R-nullable-dev": 6, "R-hooks-exhaustive": 2, "R-quantile-progress": 2, "R-append-absent": 9}
+FLOORS = {"R-remove-complete": 12, "R-no-iter-mutation": 3, "R-boundaries-sorted-unique-inf": 4, "R-definite-assignment": 100, "R-nullable-dev": 6, "R-hooks-exhaustive": 2, "R-quantile-progress": 2, "R-append-absent": 9, "R-pool-args": 1}
 
 PER_FEATURE = {
     "features", "qualitative_features", "quantitative_features", "values_orders", "input_dtypes", "labels_per_values",
@@ -79,6 +81,62 @@ def rule_remove_complete(ctx):
     first = [s for s in fi.node.body if not (isinstance(s, ast.Expr) and isinstance(s.value, ast.Constant))]
     ok = len(first) == 1 and isinstance(first[0], ast.If) and cmp_canon(first[0].test) == ("feature", "in", "self.features")
     ctx.ob(R, construct(fi, "removal is a no-op for a feature that is not (or no longer) fitted"), ok, loc(fi))
+
+
+def rule_remove_dispatch(ctx):
+    """A removal requested by a method other than _remove_feature itself must reach the most derived
+    _remove_feature of the object: `super()._remove_feature(...)` there skips the overrides that clean
+    the subclass' own per-feature lists."""
+    R = "R-remove-complete"
+    repo = ctx.repo
+    for fi in repo.all_functions():
+        if fi.cls is None or fi.name == "_remove_feature":
+            continue
+        for c in walk_no_nested(fi.node):
+            if not (isinstance(c, ast.Call) and isinstance(c.func, ast.Attribute) and c.func.attr == "_remove_feature"):
+                continue
+            f = c.func
+            if isinstance(f.value, ast.Call) and call_name(f.value) == "super":
+                skipped = []
+                for ci in concrete_classes(repo):
+                    if fi.cls in repo.mro(ci):
+                        full = repo.lookup_method(ci, "_remove_feature")
+                        used = repo.lookup_method(ci, "_remove_feature", after=fi.cls)
+                        if full is not None and (used is None or full.key != used.key):
+                            skipped.append(f"{ci.name}: {full.qualname} skipped")
+                ctx.ob(R, construct(fi, "super()._remove_feature(...) bypasses no override"), not skipped, loc(fi, c),
+                       "" if not skipped else "; ".join(skipped[:3]) + " -- the subclass' own per-feature lists keep the dropped feature")
+            elif isinstance(f.value, ast.Name) and f.value.id == "self":
+                ctx.ob(R, construct(fi, "self._remove_feature(...) dispatches to the most derived removal"), True, loc(fi, c))
+
+
+def rule_pool_chunksize(ctx):
+    """multiprocessing raises ValueError for chunksize < 1: a computed chunk size must be clamped."""
+    R = "R-pool-args"
+    n = 0
+    for fi in ctx.repo.all_functions():
+        for c in walk_no_nested(fi.node):
+            if isinstance(c, ast.Call) and isinstance(c.func, ast.Attribute) and c.func.attr in ("imap", "imap_unordered", "map", "starmap", "map_async", "starmap_async"):
+                if "pool" not in unparse(c.func.value).lower():
+                    continue
+                n += 1
+                cs = kwarg(c, "chunksize") or (c.args[2] if len(c.args) > 2 else None)
+                ok = True
+                if cs is not None:
+                    v = cs
+                    ok = False
+                    if isinstance(v, ast.Constant) and isinstance(v.value, int) and v.value >= 1:
+                        ok = True
+                    elif isinstance(v, ast.Call) and call_name(v) == "max" and any(isinstance(a, ast.Constant) and isinstance(a.value, int) and a.value >= 1 for a in v.args):
+                        ok = True
+                    elif isinstance(v, ast.BoolOp) and isinstance(v.op, ast.Or) and isinstance(v.values[-1], ast.Constant) and v.values[-1].value >= 1:
+                        ok = True
+                    elif isinstance(v, ast.BinOp) and isinstance(v.op, ast.Add) and any(isinstance(a, ast.Constant) and isinstance(a.value, int) and a.value >= 1 for a in (v.left, v.right)):
+                        ok = True
+                ctx.ob(R, construct(fi, f"{c.func.attr}: chunk size is absent or provably >= 1"), ok, loc(fi, c),
+                       "" if ok else f"chunksize={short(cs)} can be 0 (e.g. more workers than features): multiprocessing raises ValueError, not AssertionError")
+    if n == 0:
+        ctx.ob(R, "no pool.map/imap call", True, "")
 
 
 def rule_definite_assignment(ctx):
@@ -336,6 +394,8 @@ def rule_quantile_progress(ctx):
 
 def check(ctx):
     rule_remove_complete(ctx)
+    rule_remove_dispatch(ctx)
+    rule_pool_chunksize(ctx)
     c10.rule_no_iter_mutation(ctx)
     quant.check_boundaries(ctx, "R-boundaries-sorted-unique-inf")
     rule_definite_assignment(ctx)
@@ -360,6 +420,8 @@ MUTANTS = [
     M("filter_nan drops its None guard", [(F_BC, "    filtered_xagg = None\n    if xagg is not None:\n        # filtering out nans if requested from train crosstab\n        filtered_xagg = xagg.copy()\n        if str_nan in xagg.index:\n            filtered_xagg = xagg.drop(str_nan, axis=0)\n", "    filtered_xagg = xagg.copy()\n    if str_nan in xagg.index:\n        filtered_xagg = xagg.drop(str_nan, axis=0)\n")], "R-nullable-dev", "filter_nan"),
     M("binary aggregator without dev guard", [(F_BIN, "        xtabs = {feature: None for feature in features}\n        if X is not None:\n            # crosstab for each feature\n            for feature in features:\n                # computing crosstab with str_nan\n                xtab = crosstab(X[feature], y)\n\n                # reordering according to known_order\n                xtab = xtab.reindex(labels_orders[feature], fill_value=0)\n\n                # storing results\n                xtabs.update({feature: xtab})",
        "        xtabs = {feature: None for feature in features}\n        for feature in features:\n            # computing crosstab with str_nan\n            xtab = crosstab(X[feature], y)\n\n            # reordering according to known_order\n            xtab = xtab.reindex(labels_orders[feature], fill_value=0)\n\n            # storing results\n            xtabs.update({feature: xtab})")], "R-nullable-dev", "_aggregator"),
+    M("removal bypasses the subclass override", [(F_DISC, "                    UserWarning,\n                )\n                self._remove_feature(feature)\n\n        # checking for columns containing floats or integers even with filled nans", "                    UserWarning,\n                )\n                super()._remove_feature(feature)\n\n        # checking for columns containing floats or integers even with filled nans")], "R-remove-complete", "QualitativeDiscretizer._prepare_data"),
+    M("chunk size computed by floor division", [(F_QUAN, "                    self.quantitative_features,\n                )\n        # storing into the values_orders", "                    self.quantitative_features,\n                    chunksize=len(self.quantitative_features) // self.n_jobs,\n                )\n        # storing into the values_orders")], "R-pool-args"),
     M("recursion keeps the frequent values", [(F_QUAN, "df_feature[(sub_indices == i) & (~in1d(df_feature, frequent_values))], q, len_df, []", "df_feature[(sub_indices == i)], q, len_df, []")], "R-quantile-progress"),
     M("carving loop iterates self.features while removing", [(F_BC, "        all_features = self.features[:]  # (features are being removed from self.features)\n        for n, feature in enumerate(all_features):", "        all_features = self.features  # (features are being removed from self.features)\n        for n, feature in enumerate(self.features):")], "R-no-iter-mutation"),
 ]
@@ -367,5 +429,6 @@ BENIGN = [
     B("removal order changed", [(F_BASE, "            if feature in self.features_dropna:\n                self.features_dropna.pop(feature)\n", ""), (F_BASE, "            self.features.remove(feature)\n", "            self.features.remove(feature)\n            if feature in self.features_dropna:\n                self.features_dropna.pop(feature)\n")]),
     B("removal through a helper comprehension", [(F_BASE, "            if feature in self.input_dtypes:\n                self.input_dtypes.pop(feature)\n", "            self.input_dtypes.pop(feature, None)\n")]),
     B("None guard as early return", [(F_BC, "    combi_xagg = None\n    if xagg is not None:\n        # grouping modalities in the crosstab\n        groups = list(map(order.get_group, xagg.index))\n        combi_xagg = xagg.groupby(groups, dropna=False, sort=False).sum()\n\n    return combi_xagg", "    if xagg is None:\n        return None\n    groups = list(map(order.get_group, xagg.index))\n    combi_xagg = xagg.groupby(groups, dropna=False, sort=False).sum()\n\n    return combi_xagg")]),
+    B("chunk size clamped", [(F_QUAN, "                    self.quantitative_features,\n                )\n        # storing into the values_orders", "                    self.quantitative_features,\n                    chunksize=max(1, len(self.quantitative_features) // self.n_jobs),\n                )\n        # storing into the values_orders")]),
     B("scalar attribute added to a carver", [(F_BC, "        self.sort_by = sort_by\n", "        self.sort_by = sort_by\n        self.n_features_in = len(self.features)\n")]),
 ]
